@@ -277,7 +277,7 @@ func hexHead(b []byte) string {
 
 func c06Main(args []string) {
 	run := ev.NewRun("C06")
-	run.Rule = "mutation family (every truncation <768 then every 61st + last 64; every bit flip in the first 192 bytes; byte overwrite {00,7f,80,ff} at every offset <384, then ff at every offset and {00,7f,80} every 31st; 1/2/4/8-byte length saturation patterns in the first 256 bytes; block dup/remove of 1/4/16/64 bytes every 16) around <=6 corpus samples per format (3 smallest + 3 spread up to 16 KiB), x all registered formats + probe x force; quick = PRNG slice with an equal share per format, thorough = the whole family enumerated. Event = Go panic escaping decode.Decode / interp.Main or worker death by a Go fatal error. non-trivial = mutated input that still produced a (partial) tree; distinct = (outcome, format, mutation kind, seed)"
+	run.Rule = "mutation family (every truncation <768 then every 61st + last 64; every bit flip in the first 192 bytes; byte overwrite {00,7f,80,ff} at every offset <384, then ff at every offset and {00,7f,80} every 31st; 1/2/4/8-byte length saturation patterns in the first 256 bytes; block dup/remove of 1/4/16/64 bytes every 16) around <=6 corpus samples per format (3 smallest + 3 spread up to 16 KiB), x all registered formats + probe x force; quick = PRNG slice of 250000 with an equal share per format (1/4 forced), thorough = the whole family enumerated (every mutation also forced); both tiers add the field-start cases: the first byte of every leaf field of every own sample set to ff / 00, decoded under the sample's own format. Event = Go panic escaping decode.Decode / interp.Main or worker death by a Go fatal error. non-trivial = mutated input that still produced a (partial) tree; distinct = (outcome, format, mutation kind, seed)"
 	run.Assumptions = []string{
 		"out-of-memory kills and watchdog expiry (decoder loops / length-field bombs under force) are inconclusive, listed per format, never a verdict",
 		"a panic is identified by (format, top-most fq frame, panic class)",
@@ -291,6 +291,19 @@ func c06Main(args []string) {
 	} else {
 		n = 250000
 		get = func(k int) c06Case { return c06QuickCase(run.Seed, k) }
+	}
+	{
+		// part b: field-start cases, all of them, in both tiers (see c06FieldCasesGet)
+		fc := c06FieldCasesGet()
+		base, inner := n, get
+		n += len(fc)
+		get = func(k int) c06Case {
+			if k < base {
+				return inner(k)
+			}
+			return fc[k-base]
+		}
+		run.Count("family:field-start-cases", int64(len(fc)))
 	}
 	if os.Getenv("C06_SCAN_FORCE") != "" {
 		// development aid: a forced-decoding-only slice (to list the formats that loop / allocate under force)
@@ -325,4 +338,60 @@ func c06Main(args []string) {
 	c0 := get(0)
 	run.Sample(map[string]any{"case0": c0.Label(), "seeds": len(c06SeedsGet().pool), "formats": len(c06SeedsGet().formats)})
 	run.Finish()
+}
+
+// ---- field-start cases (quick tier, part b) ----
+// Three independent authors of seeded changes picked the same kind of needle: one byte that starts a field (the
+// length prefix inside a fixed-size string) set to a large value. The PRNG slice reaches a given (sample, offset,
+// value) with probability ~10^-7 per case. Field-start cases go where decoders take decisions: every own sample of
+// every format is decoded once, the byte at the start of every leaf field (in the top-level buffer, byte-aligned
+// starts, de-duplicated) is overwritten with ff (and, for every other field, 00), and the result is decoded under
+// the sample's own format (every 4th case forced).
+var (
+	c06FieldOnce  sync.Once
+	c06FieldCases []c06Case
+)
+
+func c06FieldCasesGet() []c06Case {
+	c06FieldOnce.Do(func() {
+		s := c06SeedsGet()
+		var fs []string
+		for f := range s.byFormat {
+			fs = append(fs, f)
+		}
+		sort.Strings(fs)
+		for _, f := range fs {
+			for _, it := range s.byFormat[f] {
+				if len(it.Data) > 16*1024 || strings.HasSuffix(it.Path, "bigzero-zip.zip") { // (a decompression bomb by design: 30 s per decode)
+					continue
+				}
+				t0 := time.Now()
+				res := decodeDirect(it.Data, f, false)
+				if os.Getenv("C06_FIELDS_TIMING") != "" && time.Since(t0) > 200*time.Millisecond {
+					fmt.Fprintf(os.Stderr, "slow seed decode %v %s %s\n", time.Since(t0), it.Path, f)
+				}
+				if res.V == nil || res.Panic != nil {
+					continue
+				}
+				seen := map[int64]bool{}
+				n := 0
+				for _, lf := range leavesOf(res.V) {
+					if lf.Range.Start%8 != 0 || lf.Range.Len <= 0 || seen[lf.Range.Start] || isSynthetic(lf) {
+						continue
+					}
+					seen[lf.Range.Start] = true
+					off := int(lf.Range.Start / 8)
+					if off >= len(it.Data) {
+						continue
+					}
+					n++
+					c06FieldCases = append(c06FieldCases, c06Case{Seed: it, Mut: mutation{Kind: "byte", A: off, B: 0xff}, Format: f, Force: n%4 == 0})
+					if n%2 == 0 {
+						c06FieldCases = append(c06FieldCases, c06Case{Seed: it, Mut: mutation{Kind: "byte", A: off, B: 0x00}, Format: f, Force: n%8 == 0})
+					}
+				}
+			}
+		}
+	})
+	return c06FieldCases
 }
